@@ -160,6 +160,25 @@ def run(ctx):
                 ctx.fail("the input tree was modified", info)
         reqs.append({"op": "aht", "tree": d})
         exp.append(impl_ans)
+        if out is not None and rng.random() < 0.2:
+            # the caller edits the tree it handed in (a term's value, the order of operands, a child attribute
+            # assigned directly) and hands the SAME object in again: the answer is the one for the new content
+            # (seeded C13-G: the children list cached on the node, dropped only by the `children` setter)
+            d_ed = trees.edit_in_place(rng, d, o)
+            if d_ed is not None:
+                ctx.count("history: the input edited in place and handed in again")
+                info2 = {"tree": d_ed, "origin": "edited-input", "first_input": d}
+                try:
+                    out_ed = common.dump_tree(I.aht.auto_head_tail(o))
+                except IndexError:
+                    out_ed = None
+                except Exception as e:
+                    ctx.fail("auto_head_tail raised %s: %s" % (type(e).__name__, e), info2)
+                    continue
+                if out_ed is not None:
+                    oracle(ctx, d_ed, out_ed, info2, origin != "partial-layout" and expressible(d_ed))
+                    reqs.append({"op": "aht", "tree": d_ed})
+                    exp.append({"ok": out_ed})
     # ---- histories: the result of one call is edited in place (same root object) and handed in again. The second
     # call must treat it as any tree with partial layout (a transformer that remembers what it produced would not)
     BaseOp = I.tree.BaseOperation
@@ -185,8 +204,15 @@ def run(ctx):
                 continue
             tgt = rng.choice(holders)
             ch = list(tgt.children)
-            ch[rng.randrange(len(ch))] = fresh
-            tgt.children = ch
+            k = rng.randrange(len(ch))
+            names = list(getattr(type(tgt), "_children_attrs", []))
+            if not isinstance(tgt, BaseOp) and k < len(names) and rng.random() < 0.6:
+                # plain attribute assignment (`group.expr = ...`, `range_.high = ...`), as the library itself does
+                setattr(tgt, names[k], fresh)
+                ctx.count("edited-result: attribute assigned")
+            else:
+                ch[k] = fresh
+                tgt.children = ch
         d2 = common.dump_tree(r1)
         info = {"tree": d2, "origin": "edited-result", "first_input": d0}
         snap = trees.snapshot(r1)
